@@ -94,6 +94,24 @@ def replay(ctx: Ctx, recs: List[Dict[str, Any]]) -> None:
                     close(ctx, "scheme:merton:zero-intensity", "Merton model with zero jump intensity differs from geometric Brownian motion on the same normals", gm, exp, rs)
                     gk = generate_kou_jump(N, T, init_state=(x0,), sigma=sigma, mu=mu, dt=dt, jump_per_year=0.0, dtype=DT, engine=scripted_engine([Z]))
                     close(ctx, "scheme:kou:zero-intensity", "Kou model with zero jump intensity differs from geometric Brownian motion on the same normals", gk, exp, rs)
+            # one initial value PER PATH, given as a bare tensor (the documented tensor spelling of init_state)
+            x0s = 1.0 + 0.25 * torch.arange(N, dtype=DT)
+            sigma, mu, dt = 1.0, 0.5, 1 / 16
+            try:
+                if scheme == "brownian":
+                    got = generate_brownian(N, T, init_state=x0s[:, None].clone(), sigma=sigma, mu=mu, dt=dt, dtype=DT, engine=scripted_engine([Z]))
+                    exp = x0s[:, None] + mu * dt * ks + sigma * math.sqrt(dt) * S
+                    gk = None
+                else:
+                    got = generate_geometric_brownian(N, T, init_state=x0s[:, None].clone(), sigma=sigma, mu=mu, dt=dt, dtype=DT, engine=scripted_engine([Z]))
+                    exp = x0s[:, None] * torch.exp((mu - sigma ** 2 / 2) * dt * ks + sigma * math.sqrt(dt) * S)
+                    gk = generate_kou_jump(N, T, init_state=x0s.clone(), sigma=sigma, mu=mu, dt=dt, jump_per_year=0.0, dtype=DT, engine=scripted_engine([Z]))
+                close(ctx, f"scheme:{scheme}:per-path-initial-state", f"{scheme} paths started from one initial value per path (a bare tensor) differ from the exact solution from THOSE values",
+                      got, exp, rs, {"init_state": x0s.tolist()[:4]})
+                if gk is not None:
+                    close(ctx, "scheme:kou:per-path-initial-state", "Kou paths (zero intensity) started from one initial value per path differ from the exact solution from those values", gk, exp, rs)
+            except Exception as ex:
+                ctx.violation(f"scheme:{scheme}:per-path-initial-state", f"{scheme} generator raised {type(ex).__name__} for one initial value per path given as a bare tensor", {"error": repr(ex)[:200]})
         elif scheme == "merton":
             S = torch.tensor([[float(p[1]) for p in r["path"]] for r in rs], dtype=DT)
             SN = torch.tensor([[float(p[2]) for p in r["path"]] for r in rs], dtype=DT)
